@@ -23,6 +23,7 @@ struct Config {
   int restart = 16, comp = 1, filter = 0 /*0 none 1 bloom10 2 bloom2*/, cache = 0 /*0 default 1 cap0 2 4KiB*/;
   int mof = 1000, mmap = 1, reuse = 0, paranoid = 0, cmp = 0 /*0 bytewise 1 reverse 2 length-first*/;
   int verify = 0, fillc = 1;
+  int sep = 0;                   // 1: the custom comparators supply shortest_separator / short_successor callbacks
   long rlimit = 1024;
   string str() const;
   bool parse(const string &s);
@@ -83,7 +84,7 @@ struct KeyCmp {
   bool operator()(const string &a, const string &b) const { return cmp(a, b) < 0; }
 };
 typedef std::map<string, string, KeyCmp> Model;
-const ldb_comparator_t *lcdb_comparator(int type);
+const ldb_comparator_t *lcdb_comparator(int type, int with_callbacks = 0);
 
 // ------------------------------------------------------------------ run state
 struct Violation { string prop, cls, detail; };
@@ -125,6 +126,7 @@ inline ldb_slice_t S(const string &s) { return ldb_slice(s.data(), s.size()); }
 inline string str_of(const ldb_slice_t &s) { return string((const char *)s.data, s.size); }
 int db_get(ldb_t *db, const string &k, string *v, const ldb_snapshot_t *snap, int verify, int fillc);
 int db_write(ldb_t *db, const std::vector<Upd> &ups, int sync);
+int db_write_mode(ldb_t *db, const std::vector<Upd> &ups, int sync, int mode); // 1 append, 2 same batch twice, 3 reuse after reset, 4 iterate first
 // full forward scan; returns iterator status
 int db_scan(ldb_t *db, std::vector<std::pair<string, string>> *out, const ldb_snapshot_t *snap = nullptr, int verify = 0);
 int db_scan_back(ldb_t *db, std::vector<std::pair<string, string>> *out, const ldb_snapshot_t *snap = nullptr, int verify = 0);
